@@ -57,6 +57,14 @@ def _iso_roles(world):
 
 
 def gen_query(rng, world, heavy_w):
+    q = _gen_query(rng, world, heavy_w)
+    frac = world["roles"].get("fractional")
+    if frac is not None and q["g"] in ("access", "interp", "spread", "export") and rng.random() < 0.25:
+        q["iso"] = frac      # the isotherm given as a fraction / percentage of the material gets its share of the calls
+    return q
+
+
+def _gen_query(rng, world, heavy_w):
     r, pts = _iso_roles(world)
     isos = world["isos"]
     fam = r.get("family", [])
@@ -90,7 +98,8 @@ def gen_query(rng, world, heavy_w):
         elif what == "loading":
             q["kw"] = rng.choice([{}, {"loading_unit": "mol"}, {"loading_basis": "mass", "loading_unit": "g"},
                                   {"material_basis": "volume", "material_unit": "cm3"}, {"loading_basis": "volume_liquid", "loading_unit": "cm3"},
-                                  {"limits": [0.5, 3.0]}, {"indexed": True}, {"loading_basis": "percent"}, {"loading_unit": "kPa"}])
+                                  {"limits": [0.5, 3.0]}, {"indexed": True}, {"loading_basis": "percent"}, {"loading_unit": "kPa"},
+                                  {"material_unit": "kg"}, {"loading_basis": "fraction"}, {"material_basis": "mass", "material_unit": "kg"}])
         elif what == "other_data":
             q["key"] = rng.choice(["enthalpy", "enthalpy", "nothing"])
     elif g == "interp":
@@ -103,7 +112,7 @@ def gen_query(rng, world, heavy_w):
                                   {"loading_unit": "mol"}, {"loading_basis": "mass", "loading_unit": "mg"},
                                   {"material_basis": "volume", "material_unit": "cm3"}, {"pressure_mode": "absolute"},
                                   {"pressure_mode": "relative%"}, {"loading_basis": "volume_liquid", "loading_unit": "cm3"},
-                                  {"loading_basis": "percent"}, {"material_basis": "molar", "material_unit": "mmol"},
+                                  {"loading_basis": "percent"}, {"material_basis": "molar", "material_unit": "mmol"}, {"material_unit": "kg"},
                                   {"pressure_unit": "torr", "pressure_mode": "absolute", "loading_basis": "volume_gas", "loading_unit": "L"}])
         else:
             q["kw"] = rng.choice([{}, {}, {"pressure_unit": "Pa"}, {"pressure_mode": "relative"}, {"loading_unit": "mol"},
@@ -235,6 +244,40 @@ def gen_query(rng, world, heavy_w):
         if what == "reverse_iast" and rng.random() < 0.3:
             q["kw"] = rng.choice([{"gas_mole_fraction_guess": [0.4, 0.6]}, {"warningoff": True}])
     return q
+
+
+BURST_KINDS = ["linear", "nearest", "zero", "slinear", "quadratic", "cubic", "previous", "next"]
+BURST_FILLS = [None, 0.0, [0.0, 5.0], "extrapolate", 1.5, [1.0, 2.0]]
+
+
+def gen_burst(rng, world):
+    """A long stretch of history in one step: 34-46 interpolation calls with pairwise distinct (branch, kind, fill)
+    settings on one isotherm.  Its members are history only (not compared one by one); the steps after it are."""
+    _, pts = _iso_roles(world)
+    i = rng.choice(pts)
+    fn = rng.choice(["loading_at", "loading_at", "pressure_at"])
+    combos = [(b, k, f) for b in ("ads", "des") for k in BURST_KINDS for f in BURST_FILLS]
+    rng.shuffle(combos)
+    qs = [{"g": "interp", "q": fn, "iso": i, "branch": b, "kind": k, "fill": f, "frac": rng.choice([0.5, 0.31, 0.77]), "kw": {}}
+          for b, k, f in combos[:rng.randint(34, 46)]]
+    return {"g": "burst", "q": "burst", "iso": i, "qs": qs}
+
+
+def gen_churn(rng, world, heavy_w):
+    """Object churn: the query runs on a series of short-lived look-alikes (same labels and metadata, other data) standing
+    in for one of its isotherms; they die, the isotherm is built anew from its specification - by a program that loads
+    one file after another - and the query follows.  Returns (churn step, the query) or None."""
+    for attempt in range(16):
+        q = gen_query(rng, world, heavy_w)
+        if q["g"] in ("mutator", "adsorbate"):
+            continue
+        if attempt < 8 and not ("ref" in q or q.get("isos") or "@ISO" in json.dumps(q.get("kw") or {})):
+            continue        # first look for a query in which an isotherm plays a second role (reference, partner, model)
+        slots = [q[k] for k in ("ref", "iso") if isinstance(q.get(k), int)] + list(q.get("isos") or [])
+        slots = [k for k in slots if world["isos"][k]["kind"] == "point" and not world["isos"][k].get("adsorbate_object")]
+        if slots:
+            return {"g": "churn", "q": "churn", "slot": rng.choice(slots), "n": 16, "query": q}, q
+    return None
 
 
 def gen_related(rng, world, prev):
@@ -617,6 +660,41 @@ def _build(world):
     return [build.make_isotherm(s) for s in world["isos"]]
 
 
+def churn(objs, world, k, n, q, scratch):
+    """See gen_churn.  The new object is built until it occupies the address one of the dead look-alikes had (bounded):
+    where an object lives is nothing a result may depend on, and a user's program gets there by luck."""
+    import gc
+    from sim.worlds import build
+    spec = world["isos"][k]
+    ghosts = []
+    for j in range(n):
+        g = copy.deepcopy(spec)
+        g["loading"] = [v * (1.0 + 0.07 * (j + 1)) for v in g["loading"]]
+        ghosts.append(build.make_isotherm(g))
+    for gobj in ghosts:
+        o2 = list(objs)
+        o2[k] = gobj
+        exec_query(o2, q, scratch)
+        del o2
+    addresses = {id(g) for g in ghosts}
+    del gobj
+    ghosts.clear()
+    objs[k] = None
+    gc.collect()
+    held = []
+    hit = False
+    for _ in range(60):
+        cand = build.make_isotherm(spec)
+        if id(cand) in addresses:
+            hit = True
+            break
+        held.append(cand)
+    objs[k] = cand
+    del held
+    gc.collect()
+    return {"address_reused": hit}
+
+
 def _sut_factory(world, scratch):
     def factory():
         objs = _build(world)
@@ -628,6 +706,13 @@ def _sut_factory(world, scratch):
                 a = snapshot(objs)
                 b = snapshot(objs)
                 return {"changed": snapshot_diff(a, b)}
+            if msg["cmd"] == "burst":
+                before = snapshot(objs)
+                for q in msg["qs"]:
+                    exec_query(objs, q, scratch)
+                return {"changed": snapshot_diff(before, snapshot(objs))}
+            if msg["cmd"] == "churn":
+                return churn(objs, world, msg["slot"], msg["n"], msg["query"], scratch)
             if msg["cmd"] == "q":
                 before = snapshot(objs)
                 out = exec_query(objs, msg["q"], scratch)
@@ -716,6 +801,14 @@ def execute(ctx, world, rng=None, steps=None, cfg=None):
             if steps is None:
                 if pending is not None:
                     q, pending = pending, None          # the same query again, right after a conversion of its isotherm
+                elif cfg.get("burst") and j == cfg["burst_at"]:
+                    q = gen_burst(rng, world)
+                    b = q["qs"][0]
+                    pending = {"g": "interp", "q": b["q"], "iso": q["iso"], "branch": "ads", "kind": rng.choice(KINDS), "fill": 2.5,
+                               "frac": rng.choice([0.5, 0.31]), "kw": {}}
+                elif cfg.get("churn") and j == cfg["churn_at"]:
+                    ch = gen_churn(rng, world, cfg["heavy_w"])
+                    q, pending = ch if ch is not None else (gen_query(rng, world, cfg["heavy_w"]), None)
                 elif cfg["mutators"] and prev is not None and prev["g"] in ("interp", "spread") and rng.random() < 0.2:
                     q = gen_mutator(rng, world)
                     q["iso"] = prev["iso"]
@@ -730,6 +823,25 @@ def execute(ctx, world, rng=None, steps=None, cfg=None):
             else:
                 q = steps[j]
             executed.append(q)
+            if q["g"] == "burst":
+                r = sut.call({"cmd": "burst", "qs": q["qs"]}, timeout=600)
+                count("bursts")
+                count("probe:long-interpolation-history")
+                events.append(["burst", len(q["qs"])])
+                if r["changed"]:
+                    viol = {"kind": "C04/impure-query", "signature": f"C04/impure-query by=burst changed={','.join(r['changed'])}",
+                            "detail": {"changed": r["changed"]}}
+                    break
+                prev = None
+                continue
+            if q["g"] == "churn":
+                r = sut.call({"cmd": "churn", "slot": q["slot"], "n": q["n"], "query": q["query"]}, timeout=600)
+                count("churns")
+                if r["address_reused"]:
+                    count("probe:new-isotherm-at-address-of-dead-one")
+                events.append(["churn", q["query"]["q"]])
+                prev = None
+                continue
             qc = query_class(q)
             r = sut.call({"cmd": "q", "q": q}, timeout=600)
             out = r["out"]
@@ -807,8 +919,15 @@ def execute(ctx, world, rng=None, steps=None, cfg=None):
 
 
 def make_cfg(rng, tier):
-    return {"n_steps": rng.randint(2, 14), "mutators": rng.random() < 0.4,
-            "heavy_w": 0.15 if tier == "quick" else 0.35, "related_p": rng.choice([0.0, 0.3, 0.6])}
+    cfg = {"n_steps": rng.randint(2, 14), "mutators": rng.random() < 0.4,
+           "heavy_w": 0.15 if tier == "quick" else 0.35, "related_p": rng.choice([0.0, 0.3, 0.6])}
+    r = rng.random()
+    if r < 0.05:
+        cfg["burst"], cfg["burst_at"] = True, rng.randrange(0, max(1, cfg["n_steps"] - 1))
+    elif r < 0.13 and not cfg["mutators"]:
+        # (a rebuilt isotherm equals the reference's only if nothing converted the original)
+        cfg["churn"], cfg["churn_at"] = True, rng.randrange(0, max(1, cfg["n_steps"] - 1))
+    return cfg
 
 
 def run(ctx, index):
